@@ -52,17 +52,6 @@ died after the copy was taken — the condition then raises `AttributeError` and
 instance enters the cached domain of the variable (a strong reference).
 The operations of the history in between are ordinary model steps (`SG.step`); the walk reads the model's `byClass`. -/
 
-structure Iter where
-  key : Nat
-  cls : Cls
-  started : Bool := false
-  walk : List Cls := []
-  cur : List Obj := []
-  yielded : List Obj := []
-  expected : List Obj := []
-  /-- 0 open, 1 stop, 2 raised -/
-  status : Nat := 0
-
 inductive DOp where
   | m (ops : List XOp)
   | defclass (c p : Cls)
@@ -75,6 +64,7 @@ def parseD (xs : List Sexp) : Option (List DOp) :=
     | x :: r => do
       let a ← match x with
         | .list [.atom "defclass", c, p] => do pure (DOp.defclass (← c.asNat?) (← p.asNat?))
+        | .list [.atom "defclassn", c, p, _] => do pure (DOp.defclass (← c.asNat?) (← p.asNat?))
         | .list [.atom "qstart", k, c] => do pure (DOp.qstart (← k.asNat?) (← c.asNat?))
         | .list [.atom "qnext", k] => do pure (DOp.qnext (← k.asNat?))
         | _ => do pure (DOp.m (← parseXOne pos x))
@@ -86,43 +76,6 @@ structure DRun where
   st : DSt
   defs : List (Cls × Cls) := []
   iters : List Iter := []
-
-def iterKey (k : Nat) : Nat := 500000 + k
-
-def setCache (st : DSt) (k : Nat) (ys : List Obj) : DSt :=
-  { st with h := { st.h with qvars := st.h.qvars.map (fun v =>
-      if v.key == iterKey k then { v with cache := some ys.eraseDups } else v) } }
-
-/-- one `next()`; `snap` = the repaired behaviour (every class list copied when the evaluation starts, dead
-instances skipped) -/
-def advance (q : Quirks) (snap : Bool) (S : Schema) (Sfinal : Schema) (st : DSt) (it : Iter) : DSt × Iter :=
-  if it.status != 0 then (st, it) else
-  let (st, it) :=
-    if it.started then (st, it)
-    else
-      let st := stepS Sfinal q st .sweep
-      let classes := if q.dupSubclasses then S.below it.cls else (S.below it.cls).eraseDups
-      let exp := st.h.expected S it.cls
-      if snap then
-        (st, { it with started := true, walk := [], expected := exp,
-                       cur := classes.flatMap fun c => (st.g.byClass.filter (fun w => w.cls == c)).map (·.obj) })
-      else (st, { it with started := true, walk := classes, expected := exp })
-  let rec go (fuel : Nat) (it : Iter) : DSt × Iter :=
-    match fuel with
-    | 0 => (st, it)
-    | fuel + 1 =>
-      match it.cur with
-      | o :: rest =>
-        if st.h.isLive o then
-          let it := { it with cur := rest, yielded := it.yielded ++ [o] }
-          (setCache st it.key it.yielded, it)
-        else if snap then go fuel { it with cur := rest }
-        else (st, { it with cur := rest, status := 2 })
-      | [] =>
-        match it.walk with
-        | c :: w => go fuel { it with walk := w, cur := (st.g.byClass.filter (fun x => x.cls == c)).map (·.obj) }
-        | [] => (st, { it with status := 1 })
-  go (it.walk.length + it.cur.length + st.g.byClass.length + 2) it
 
 def stepDOp (q : Quirks) (snap : Bool) (Sfinal : Schema) (r : DRun) : DOp → DRun
   | .m ops => { r with st := runXS Sfinal q r.st ops }
@@ -195,7 +148,6 @@ def run (s : Sexp) : String :=
       let S := schemaWith (parseDefs xs)
       let m := obsD (runDOps Quirks.asIs false S dops)
       let mr := obsD (runDOps Quirks.none true S dops)
-      let its := dops.filterMap (fun o => match o with | .qstart _ c => some c | _ => none)
       let (t3, t4) := trigSuspended S dops
       let trig := joinTrig [(trigReeval ops, "F-C13-1"),
         -- (F-C13-2, classes listed twice below T, is repaired in /repo: no case is attributed to it any more)
